@@ -5,6 +5,7 @@ import (
 
 	"verif/internal/driver"
 	"verif/internal/gen"
+	"verif/internal/model"
 )
 
 // C08: FlushRevert restores exactly the previous Flush and always terminates.
@@ -35,16 +36,16 @@ func c08Cases(tier string) []c08Grid {
 func init() {
 	register(&Prop{
 		ID: "C08", Level: "exploration",
-		Rule: "grid cases: for every (flushes f in 0..6) x (pending: nothing / unflushed mutations / unflushed mutations plus a Collection.Write() that leaves unreferenced bytes after the last root record) x (re-open before reverting: no/yes) x (consecutive reverts r in 1..f+2, i.e. always past the first flush) x content variations (half of them with reverse / length-first comparators supplied through KeyCompareForCollection), the store is built with random mutations between the flushes, reverted r times, and after every revert compared with the model's stack of flushed states (contents of every collection, names, file length = end of that flush's root record, a second store opened on a copy of the file, the independent decoder); then mutated, flushed and re-opened again. Further cases are random histories (several collections, collection add/remove between flushes, memory-only stores which must refuse). Termination is decided on logical steps: the rootscan.iter hook counts scan iterations and more than 2*filesize+64 is impossible for a terminating scan. Non-trivial = at least one revert executed on a file with >= 1 flush, or a revert past the first flush; distinct = distinct op-trace hash.",
+		Rule: "grid cases: for every (flushes f in 0..6) x (pending: nothing / unflushed mutations / unflushed mutations plus a Collection.Write() that leaves unreferenced bytes after the last root record) x (re-open before reverting: no/yes) x (consecutive reverts r in 1..f+2, i.e. always past the first flush) x content variations (half of them with reverse / length-first comparators supplied through KeyCompareForCollection), the store is built with random mutations between the flushes, reverted r times, and after every revert compared with the model's stack of flushed states (contents of every collection, names, file length = end of that flush's root record, a second store opened on a copy of the file, the independent decoder); then mutated, flushed and re-opened again. Further cases are random histories (several collections, collection add/remove between flushes, memory-only stores which must refuse). In a third of the cases an iterator that its consumer has not finished with (one item taken, not closed) is open across every FlushRevert. No-callback cases: the store has NO KeyCompareForCollection callback; a collection in the default order is flushed, then removed and re-created (or replaced while empty) under the same name with a reverse / length-first comparator, filled and flushed again; FlushRevert must bring back the first flush in ITS order (then mutate, flush, re-open and compare again). Termination is decided on logical steps: a FlushRevert that does not return while every goroutine of the process is parked on a channel or lock (8 identical successive observations) is blocked for ever; the rootscan.iter hook counts scan iterations and more than 2*filesize+64 is impossible for a terminating scan. Non-trivial = at least one revert executed on a file with >= 1 flush, or a revert past the first flush; distinct = distinct op-trace hash.",
 		Assumptions: []string{
 			"snapshots taken before a FlushRevert of the original are closed first (README)",
 			"failed flushes between the last Flush and FlushRevert are exercised under C07 (fault injection), Collection.Write() here",
 		},
 		Exhaustive: func(string) bool { return false },
-		NumCases:   func(tier string) int { return len(c08Cases(tier)) + pick(tier, 300, 20000) },
+		NumCases:   func(tier string) int { return len(c08Cases(tier)) + pick(tier, 300, 20000) + pick(tier, 120, 4000) },
 		Run:        runC08,
 		Floor: func(tier string, st map[string]int64) string {
-			for _, k := range []string{"op.FlushRevert", "c08.revert-past-first", "c08.revert-to-previous", "c08.flush-after-revert", "c08.memonly-refused", "rootscan.iters", "c08.collwrite-before-revert", "c08.custom-comparator-cases"} {
+			for _, k := range []string{"op.FlushRevert", "c08.revert-past-first", "c08.revert-to-previous", "c08.flush-after-revert", "c08.memonly-refused", "rootscan.iters", "c08.collwrite-before-revert", "c08.custom-comparator-cases", "iterators-open-across-revert", "c08.no-callback-cases"} {
 				if st[k] == 0 {
 					return "no " + k + " observed"
 				}
@@ -59,11 +60,14 @@ func runC08(ctx *Ctx, idx int) Result {
 	r := gen.New(seed)
 	SeedGlobalRand(seed)
 	grid := c08Cases(ctx.Tier)
+	if idx >= len(grid)+pick(ctx.Tier, 300, 20000) {
+		return runC08NoCallback(ctx, idx, r)
+	}
 	if idx >= len(grid) {
 		return runC08Random(ctx, idx, r)
 	}
 	g := grid[idx]
-	cfg := driver.Config{ReadbackK: 0, Decode: true, Walk: r.P(50)}
+	cfg := driver.Config{ReadbackK: 0, Decode: true, Walk: r.P(50), IterAcrossRevert: idx%3 == 1}
 	hc := HistCfg{NColls: r.Range(1, 2), NKeys: 6, KeyClass: gen.KeyClass(r.Intn(int(gen.NumKeyClasses) - 1)), ValClass: gen.ValsMixed, Prio: gen.PrioDistinct}
 	if hc.KeyClass == gen.KeysMixed {
 		hc.KeyClass = gen.KeysShort
@@ -140,7 +144,7 @@ func runC08(ctx *Ctx, idx int) Result {
 var mixC08 = Mix{Set: 30, Delete: 8, GetItem: 4, Visit: 2, Flush: 12, Evict: 3, Reopen: 4, FlushRevert: 8, CollWrite: 4, SetCollNew: 3, RemoveColl: 2, SetCollExisting: 1, Snapshot: 2, SnapRead: 3, SnapClose: 2}
 
 func runC08Random(ctx *Ctx, idx int, r *gen.R) Result {
-	cfg := driver.Config{MemOnly: r.P(8), ReadbackK: []int{1, 2, 5}[r.Intn(3)], Decode: true, ReopenCheck: r.P(50), Walk: r.P(30)}
+	cfg := driver.Config{MemOnly: r.P(8), ReadbackK: []int{1, 2, 5}[r.Intn(3)], Decode: true, ReopenCheck: r.P(50), Walk: r.P(30), IterAcrossRevert: idx%3 == 1}
 	hc := HistCfg{Steps: r.Range(20, 70), NColls: r.Range(1, 3), NKeys: r.Range(4, 12), KeyClass: gen.KeysShort, ValClass: gen.ValsMixed,
 		Prio: gen.PrioDistinct, Mix: mixC08, MaxSnaps: 2, Exotic: r.P(30), CustomCmp: r.P(35)}
 	if hc.CustomCmp {
@@ -178,4 +182,74 @@ func runC08Random(ctx *Ctx, idx int, r *gen.R) Result {
 	ctx.Add(e)
 	return Result{Hash: histHash(e), NonTrivial: h.Feat["flushrevert"] && h.Feat["flush"], Viol: violOf(e),
 		Sample: map[string]interface{}{"index": idx, "mem_only": cfg.MemOnly, "features": featList(h.Feat), "ops": tail(e.Trace, 40)}}
+}
+
+// runC08NoCallback: stores without a KeyCompareForCollection callback.  Everything such a store ever
+// loads from the file is in the default order, but between the flush that is reverted to and the
+// revert a collection of the same name lives under another comparator.
+func runC08NoCallback(ctx *Ctx, idx int, r *gen.R) Result {
+	cfg := driver.Config{Decode: true, NoCmpCallback: true, IterAcrossRevert: idx%4 == 1}
+	names := []string{"x", "y"}
+	cmps := map[string]model.Cmp{"x": model.CmpBytes, "y": model.CmpBytes}
+	e := driver.NewEnvCmps(fmt.Sprintf("c08n-%d", idx), cfg, cmps)
+	keys := gen.Keys(r, 12, gen.KeysDigits)
+	pg := gen.NewPrioGen(gen.PrioDistinct)
+	fill := func(n string, k int) {
+		for i := 0; i < k && !e.Failed(); i++ {
+			e.SetItem(n, keys[r.Intn(len(keys))], gen.Val(r, gen.ValsShort, fmt.Sprintf("v%d", i), nil), pg.Next(r), false)
+		}
+	}
+	nc := r.Range(1, 2)
+	for _, n := range names[:nc] {
+		e.SetCollection(n, model.CmpBytes)
+		fill(n, r.Range(2, 8))
+	}
+	e.Flush() // A: everything in the default order
+	if r.P(40) {
+		fill(names[0], r.Range(1, 3))
+		e.Flush() // A': still the default order
+	}
+	e.AfterStep()
+	other := []model.Cmp{model.CmpRev, model.CmpLenLex}[r.Intn(2)]
+	n := names[r.Intn(nc)]
+	if r.Bool() {
+		e.RemoveCollection(n)
+	} else {
+		for _, kv := range e.M.Live.Colls[n].Sorted() {
+			e.Delete(n, kv.Key)
+		}
+	}
+	e.Cmps[n] = other
+	e.SetCollection(n, other)
+	fill(n, r.Range(3, 8))
+	if !e.Failed() {
+		e.ReadbackAll(driver.RAll)
+	}
+	e.Flush() // B: collection n is ordered by the other comparator
+	e.AfterStep()
+	e.Cmps[n] = model.CmpBytes // what the revert brings back is in the default order again
+	e.FlushRevert()
+	if !e.Failed() {
+		ctx.Stats["c08.revert-to-previous"]++
+		e.ReadbackAll(driver.RAll)
+		driver.OpenCopyAndCompare(e, e.F.Bytes(), e.M.Durable(), "after-revert")
+		e.DecodeCheck("after-revert")
+		e.AfterStep()
+	}
+	if !e.Failed() {
+		for _, m := range e.M.Live.Names() {
+			fill(m, r.Range(1, 3))
+		}
+		e.Flush()
+		if !e.Failed() {
+			driver.OpenCopyAndCompare(e, e.F.Bytes(), e.M.Durable(), "flush-after-revert")
+			e.Reopen(false)
+			e.ReadbackAll(driver.RAll)
+			e.AfterStep()
+		}
+	}
+	ctx.Stats["c08.no-callback-cases"]++
+	ctx.Add(e)
+	return Result{Hash: histHash(e), NonTrivial: true, Viol: violOf(e),
+		Sample: map[string]interface{}{"index": idx, "no_comparator_callback": true, "replaced_with": string(other), "ops": tail(e.Trace, 40)}}
 }
